@@ -162,7 +162,7 @@ func GenFloatVal() *rapid.Generator[*Val] {
 	})
 }
 
-var wildPool = []string{"w*", "*", "?", "b?z", "*x", "a*b*c", "??", "fo?*", "x.*", "a_b*", "50%*", "*-*"}
+var wildPool = []string{"w*", "*", "?", "b?z", "*x", "a*b*c", "??", "fo?*", "x.*", "a_b*", "*-*"}
 
 // GenWildVal draws a wildcard pattern without escapes.
 func GenWildVal() *rapid.Generator[*Val] {
